@@ -68,6 +68,7 @@ func c08Cases(c *core.Ctx) []c08Case {
 				c08Case{Depth: 2, Defect: "none", Special: "unauthorized-sublayout", Flavour: "summary", DSSE: dsse, RunDir: runDir, wantOK: true},
 				c08Case{Depth: 2, Defect: "none", Special: "plain+sublayout", Flavour: "summary", DSSE: dsse, RunDir: runDir, wantOK: true},
 				c08Case{Depth: 2, Defect: "plain-link-disagrees-with-summary", Special: "plain+sublayout", Flavour: "summary", DSSE: dsse, RunDir: runDir},
+				c08Case{Depth: 2, Defect: "plain-link-reports-no-products", Special: "plain+sublayout", Flavour: "summary", DSSE: dsse, RunDir: runDir},
 				c08Case{Depth: 2, Defect: "expired", Level: 1, Special: "surplus-sublayout", Flavour: "summary", DSSE: dsse, RunDir: runDir},
 				c08Case{Depth: 2, Defect: "missing-link", Level: 1, Step: "final", Special: "surplus-sublayout", Flavour: "summary", DSSE: dsse, RunDir: runDir},
 				c08Case{Depth: 2, Defect: "none", Special: "surplus-sublayout", Flavour: "summary", DSSE: dsse, RunDir: runDir, wantOK: true},
@@ -76,6 +77,14 @@ func c08Cases(c *core.Ctx) []c08Case {
 				c08Case{Depth: 3, Defect: "missing-link-in-one-twin", Special: "twin-sublayouts", Level: 1, Step: "prep", Flavour: "summary", DSSE: dsse, RunDir: runDir},
 			)
 			for _, depth := range []int{2, 3} {
+				// delegated steps whose names contain characters of file-name patterns (the sublayout's
+				// link directory is named after the step)
+				for _, sn := range []string{"sub[12]", "s?b*", "sub\\x"} {
+					out = append(out,
+						c08Case{Depth: depth, Defect: "none", Special: "step-name:" + sn, Flavour: "summary", DSSE: dsse, RunDir: runDir, wantOK: true},
+						c08Case{Depth: depth, Defect: "missing-link", Level: depth - 1, Step: "final", Special: "step-name:" + sn, Flavour: "summary", DSSE: dsse, RunDir: runDir},
+					)
+				}
 				out = append(out,
 					// the innermost layout defines the key id of the ROOT's prep functionary with other key material
 					// (a layout is free to do so): its own evidence counts, the root functionary's does not
@@ -172,6 +181,11 @@ func runC08(c *core.Ctx) {
 			if k.Defect == "summary-digest-algorithm-differs-from-parent-evidence" {
 				d.OutAlg = "sha512"
 			}
+			if strings.HasPrefix(k.Special, "step-name:") {
+				for _, lv := range levels {
+					lv.SubName = strings.TrimPrefix(k.Special, "step-name:")
+				}
+			}
 			switch k.Special {
 			case "redefined-key-id":
 				deep := levels[k.Depth-1]
@@ -200,10 +214,13 @@ func runC08(c *core.Ctx) {
 				c.Inconclusive("harness: cannot build nesting: " + core.MsgClass(err.Error()))
 				continue
 			}
-			if k.Special == "plain+sublayout" && k.Defect == "plain-link-disagrees-with-summary" {
+			if k.Special == "plain+sublayout" && (k.Defect == "plain-link-disagrees-with-summary" || k.Defect == "plain-link-reports-no-products") {
 				// the plain link of the second functionary reports another product than the sublayout's summary
 				cm, _ := levels[1].Summary()
 				other := gen.Artifacts(map[string]string{levels[1].OutName(): "something else\n"})
+				if k.Defect == "plain-link-reports-no-products" {
+					other = map[string]intoto.HashObj{}
+				}
 				lmd, _ := gen.SignedMeta(gen.NewLink("sub", cm, other), k.DSSE, levels[0].ExtraKey.Priv)
 				lmd.Dump(filepath.Join(linkDir, gen.LinkName("sub", levels[0].ExtraKey.Pub.KeyID)))
 			}
@@ -311,7 +328,7 @@ func init() {
 	core.Register(&core.Property{
 		ID:    "C08",
 		Level: "exploration",
-		Rule: "nestings of 2 and 3 (thorough: also 4) layouts built bottom-up (each layout: steps prep / sub / final, step sub delegated to a sublayout signed by the functionary's key, links in <step>.<keyid8>/, one inspection with a marker per level); one defect from {sublayout signed by a wrong key, expired ten minutes ago, rule violation, failing inspection command, violated inspection rule, threshold not met, missing link, link signed by an unauthorized key, tampered link} at every level x every step; parent rules of the 'true summary' flavour (must hold) and of the 'inner artifact' flavour (must fail); a sublayout offered by an unauthorized functionary next to honest evidence (must not be followed: no sublayout_enter, no marker); threshold-2 step with one plain link + one sublayout (agreeing / disagreeing); threshold-1 step with an honest plain link plus a (sound / expired / incomplete) sublayout from a second authorized functionary; threshold-2 step with the same sublayout from two functionaries, a link missing in one directory only (repeated for map order); the innermost layout re-defining the key id of the root's prep functionary with other key material (its evidence counts, a link signed with the root's material does not); a sublayout whose summary reports its product under sha512 only while the parent's evidence uses sha256 (rejected at the parent); x 2 wrappers x 2 entry points. Oracle: ground truth by construction + markers + sublayout_enter events + trace automaton. " +
+		Rule: "nestings of 2 and 3 (thorough: also 4) layouts built bottom-up (each layout: steps prep / sub / final, step sub delegated to a sublayout signed by the functionary's key, links in <step>.<keyid8>/, one inspection with a marker per level); one defect from {sublayout signed by a wrong key, expired ten minutes ago, rule violation, failing inspection command, violated inspection rule, threshold not met, missing link, link signed by an unauthorized key, tampered link} at every level x every step; parent rules of the 'true summary' flavour (must hold) and of the 'inner artifact' flavour (must fail); a sublayout offered by an unauthorized functionary next to honest evidence (must not be followed: no sublayout_enter, no marker); threshold-2 step with one plain link + one sublayout (agreeing / disagreeing / the plain link reporting no products at all); delegated steps named sub[12], s?b*, sub\\x (sound and with a missing link); threshold-1 step with an honest plain link plus a (sound / expired / incomplete) sublayout from a second authorized functionary; threshold-2 step with the same sublayout from two functionaries, a link missing in one directory only (repeated for map order); the innermost layout re-defining the key id of the root's prep functionary with other key material (its evidence counts, a link signed with the root's material does not); a sublayout whose summary reports its product under sha512 only while the parent's evidence uses sha256 (rejected at the parent); x 2 wrappers x 2 entry points. Oracle: ground truth by construction + markers + sublayout_enter events + trace automaton. " +
 			"non-trivial = at least one sublayout entered or deliberately not entered; distinct = (depth, defect, level, step, flavour, special, wrapper, entry point)",
 		Assumptions: []string{"sublayouts are signed with keys (the library looks the key up in the parent's keys section); certificate-authorized sublayout signers are not exercised"},
 		Workers:     func(string) int { return 16 },
